@@ -1,0 +1,8 @@
+//go:build !verif
+
+// Package verifhook provides scheduler gates for the verification harness.
+// Without the "verif" build tag every gate is an empty, inlinable function.
+package verifhook
+
+// At marks an instrumented point (no-op in regular builds).
+func At(string) {}
